@@ -179,8 +179,6 @@ func histProfile(name string, decide []string, quick, thorough int, o histOpts, 
 }
 
 func init() {
-	register(histProfile("C01", []string{"C01"}, 1500, 60000, histOpts{maxNodes: 6, pCanary: 0.4, fancy: []float64{0.3, 0.7}, faults: true}, "C01.create", "C01.dup", "C01.ineligible"))
-	register(histProfile("C09", []string{"C09"}, 1500, 60000, histOpts{maxNodes: 8, pCanary: 0.2, fancy: []float64{0, 0.3}, faults: true}, "C09.creates", "C09.spacing", "C09.update-del"))
 	register(histProfile("C12", []string{"C12"}, 1200, 50000, histOpts{maxNodes: 4, pCanary: 0.4, fancy: []float64{0, 0.3}, faults: true, twoEDS: true, migration: true}, "C12.foreign-listed", "C12.write"))
 	register(histProfile("C14", []string{"C14"}, 1500, 60000, histOpts{maxNodes: 6, pCanary: 0.5, fancy: []float64{0, 0.3}, faults: true}, "C14.eds", "C14.ers"))
 	register(histProfile("C02", []string{"C02"}, 800, 40000, histOpts{maxNodes: 6, pCanary: 0.5, fancy: []float64{0, 0.3, 0.7}, faults: true, sane: true, c02: true, migration: true}, "C02.converged"))
@@ -1006,4 +1004,37 @@ func init() {
 		}
 	}
 	register(hp)
+}
+
+// C01 and C09: seeded histories alternate with state injection.
+func mixProfile(hp *Profile, inj func(*rand.Rand, string, int) *World, bodies map[string]func(*Sim), extraRule string) *Profile {
+	gen := hp.Gen
+	hp.Gen = func(r *rand.Rand, tier string, idx int) *World {
+		if idx%2 == 0 {
+			return inj(r, tier, idx)
+		}
+		return gen(r, tier, idx)
+	}
+	hp.Body = func(s *Sim) {
+		if b := bodies[s.W.Extra["body"]]; b != nil {
+			b(s)
+			return
+		}
+		s.Setup()
+		s.Chaos()
+		if !s.W.Cfg.NoQuiesce {
+			s.Quiesce()
+		}
+	}
+	hp.Rule = extraRule + " Odd run indices: " + hp.Rule
+	return hp
+}
+
+func init() {
+	register(mixProfile(histProfile("C01", []string{"C01"}, 3000, 120000, histOpts{maxNodes: 6, pCanary: 0.4, fancy: []float64{0.3, 0.7}, faults: true}, "C01.create", "C01.dup", "C01.ineligible"),
+		genC01Inject, map[string]func(*Sim){"c01inject": bodyC01Inject},
+		"Even run indices: state injection - 1-8 (thorough 1-16) nodes with labels/taints from the vocabulary, a template with selector/affinity/tolerations, per node a multiset of 0-3 daemon pods (phase Pending/Running/Failed/Unknown/creating, scheduled or not, Terminating or not, of the old or the new replica set or adopted from the old DaemonSet, equal or different ages), canary block present or absent, both node-assignment modes; then syncs of the new and the old replica set in drawn order with seeded map order, parallel-call interleaving and API faults."))
+	register(mixProfile(histProfile("C09", []string{"C09"}, 3000, 120000, histOpts{maxNodes: 8, pCanary: 0.2, fancy: []float64{0, 0.3}, faults: true}, "C09.creates", "C09.spacing", "C09.update-del"),
+		genC09Inject, map[string]func(*Sim){"c09inject": bodyC09Inject},
+		"Even run indices: 0-40 nodes lacking a pod, slowStartIntervalDuration 1s-5m, additive increase as number or percent, maxParallelPodCreation 1-250, reconcileFrequency 1s-1m; 5-20 reconcile requests at instants drawn from the boundary set (slot edges of the Active condition and LastFullSync+frequency, each at -1s, exactly, +1ns, +1s, plus small steps), a template change half-way in a third of the runs, partial kubelet progress in between, rejects and API clock skew in a third."))
 }
